@@ -31,6 +31,12 @@ def split_tid(t):
 
 
 def py_lit(v):
+    if isinstance(v, float) and v in (float("inf"), float("-inf")):
+        return "float('%s')" % v
+    if isinstance(v, list):
+        return "[%s]" % ", ".join(py_lit(x) for x in v)
+    if isinstance(v, dict):
+        return "{%s}" % ", ".join("%s: %s" % (py_lit(k), py_lit(x)) for k, x in v.items())
     return repr(v)
 
 
@@ -250,7 +256,7 @@ def gen_value(r, odd=False):
     if c < 0.3:
         return r.choice([0, 1, 7, 42, -3, 100000])
     if c < 0.5:
-        return r.choice([0.5, 1.25, -2.0, 1e-3, 3.0])
+        return r.choice([0.5, 1.25, -2.0, 1e-3, 3.0, float("inf")])
     if c < 0.7:
         return r.choice([True, False])
     return r.choice(STR_VALUES)
@@ -399,7 +405,7 @@ def simple_script(r, task, kind, fail=None, files=True, out=False):
 FAIL_KINDS = [
     {"end": ["exit", 1]}, {"end": ["exit", 2]}, {"end": ["exit", 255]}, {"end": ["exit", 127]},
     {"end": ["sig", 9]}, {"end": ["sig", 11]}, {"end": ["sig", 15]},
-    {"launch": "eagain"}, {"launch": "enomem"}, {"launch": "exec"}, {"launch": "chdir"},
+    {"launch": "eagain"}, {"launch": "enomem"}, {"launch": "exec"}, {"launch": "chdir"}, {"launch": "mkdir"},
 ]
 
 
